@@ -182,10 +182,15 @@ def apply_contra(tr, kind, a, b):
         n = len(ss) + 5
         for x in ss:
             x.pop("rank", None)
+        # some processes of the loom (at least one, not all) carry a rank: the first one in
+        # sort order, the last one, or the ones picked by b
+        keep = [p_ for i, p_ in enumerate(procs) if (b >> i) & 1]
+        if not keep or len(keep) == len(procs):
+            keep = [procs[b % len(procs)]]
         for x in ss:
-            if (x["loom"], x["pid"]) == procs[0]:
-                x["rank"] = [0, n]
-        return "rank on one of %d processes of a loom" % len(procs)
+            if (x["loom"], x["pid"]) in keep:
+                x["rank"] = [keep.index((x["loom"], x["pid"])), n]
+        return "rank on %d of %d processes of a loom" % (len(keep), len(procs))
     if kind == "indexgap":
         for x in same_loom:
             if x.get("cpus"):
